@@ -194,7 +194,7 @@ func coqStr(s string) string {
 
 func (t *tnode) coq() string {
 	if !t.isDir() {
-		return vh.App("Leaf", vh.N(t.id), vh.Bool(t.kind != "raw"))
+		return vh.App("Leaf", vh.N(t.id), vh.Bool(t.kind != "symlink"))
 	}
 	items := make([]string, len(t.names))
 	for i, nm := range t.names {
